@@ -805,6 +805,11 @@ fn join_chunks(chunks: Vec<Chunk>, options: &FormattingOptions) -> String {
     let mut indent = None;
     let mut had_standalone_comment = false;
     let mut prev_newlines = 0;
+    // A line that holds labels (and comments) but no code: its statement follows on the next line,
+    // so, like after a short label, no empty line is kept in between.
+    let mut line_has_label = false;
+    let mut line_has_code = false;
+    let mut had_label_line = false;
 
     for (idx, chunk) in chunks.iter().enumerate() {
         if indent.is_none() {
@@ -816,6 +821,7 @@ fn join_chunks(chunks: Vec<Chunk>, options: &FormattingOptions) -> String {
 
             match chunk.ty {
                 Some(ChunkType::Label) => {
+                    line_has_label = true;
                     if line.len() > options.whitespace.label_margin {
                         line += format!("{} ", str).as_str();
                     } else {
@@ -847,6 +853,9 @@ fn join_chunks(chunks: Vec<Chunk>, options: &FormattingOptions) -> String {
                         // the label
                         ignore = true;
                     } else {
+                        if !str.trim().is_empty() {
+                            line_has_code = true;
+                        }
                         line = format!(
                             "{:<width$}{}",
                             line,
@@ -896,7 +905,7 @@ fn join_chunks(chunks: Vec<Chunk>, options: &FormattingOptions) -> String {
                     // We should only add empty lines if:
                     // - The previous line was not a standalone comment
                     // - We did not have more than 1 empty line already
-                    should_add = !had_standalone_comment && prev_newlines == 0;
+                    should_add = !had_standalone_comment && !had_label_line && prev_newlines == 0;
                     if should_add {
                         prev_newlines += 1;
                     }
@@ -926,6 +935,7 @@ fn join_chunks(chunks: Vec<Chunk>, options: &FormattingOptions) -> String {
                     } else {
                         had_standalone_comment = false;
                     }
+                    had_label_line = line_has_label && !line_has_code;
                     prev_newlines = 0;
                     should_add = true;
                 }
@@ -944,6 +954,8 @@ fn join_chunks(chunks: Vec<Chunk>, options: &FormattingOptions) -> String {
 
                 line = "".into();
                 indent = None;
+                line_has_label = false;
+                line_has_code = false;
             }
         }
     }
